@@ -68,11 +68,14 @@ theorem delayed_unit_leaves (c : Cfg) (u : U) (sr : ShutReq) (hph : u.phase = .d
   simp [onReq, hph]
 
 /-- **A unit draining leaked handles ignores the signal** (its process has exited) and ends within
-    the leak timeout: whatever requests arrive, `leak` ms later it is done -/
-theorem draining_unit_ends (c : Cfg) (u : U) (r : Req) (hph : u.phase = .draining) :
-    (onReq c u r).1 = u ∧ (advance c u u.ls).1.phase = .done := by
-  refine ⟨by cases r <;> simp [onReq, hph], ?_⟩
-  simp [advance, nextDue, hph, fire, elapse]
+    the leak timeout: shutdown and cancellation requests change nothing, and — unless nextest is stopped, which pauses the
+    leak timer — `leak` ms later it is done -/
+theorem draining_unit_ends (c : Cfg) (u : U) (sr : ShutReq) (hph : u.phase = .draining) :
+    (onReq c u (.shutdown sr)).1 = u ∧ (onReq c u .otherCancel).1 = u ∧
+    (u.lsPaused = false → (advance c u u.ls).1.phase = .done) := by
+  refine ⟨by simp [onReq, hph], by simp [onReq, hph], ?_⟩
+  intro hp
+  simp [advance, nextDue, hph, hp, fire, elapse]
 
 /-- **A unit that has not exited when its grace period ends is killed**: in the grace period with its
     timer running, once the remaining grace has passed the next action is SIGKILL to the group, and
@@ -131,14 +134,14 @@ def escape (c : Cfg) (u : U) : List Ev :=
   match u.phase with
   | .running => [.childExit, .time c.leak]
   | .terminating _ => [.childExit, .childExit, .time c.leak]
-  | .draining => [.time u.ls]
+  | .draining => [.req .cont, .time u.ls]
   | .delay => [.req .otherCancel]
   | .done => []
 
 /-- **nextest exits once its units' processes have exited**: from every state of a unit, in every phase (running, being
     terminated, draining, waiting out a retry delay; stopped or not), the events that a killed process group is bound to produce
-    lead the unit to `done` — no wait loop depends on anything but a process exit, an end of file, a bounded (non-pausable)
-    leak timer, or a request the dispatcher has already sent.  (A unit in its retry delay leaves it on the cancellation request
+    lead the unit to `done` — no wait loop depends on anything but a process exit, an end of file, a bounded leak timer (resumed
+    with the run), or a request the dispatcher has already sent.  (A unit in its retry delay leaves it on the cancellation request
     itself: `delayed_unit_leaves`.) -/
 theorem unit_can_always_finish (c : Cfg) (u : U) : (run c u (escape c u)).1.phase = .done := by
   unfold escape
@@ -146,8 +149,8 @@ theorem unit_can_always_finish (c : Cfg) (u : U) : (run c u (escape c u)).1.phas
   | done => simp [run, hp]
   | delay => simp [run, step, onReq, hp]
   | draining =>
-    simp only [run, step, advance, nextDue, hp]
-    simp [elapse, hp, fire]
+    simp only [run, step, onReq, hp]
+    simp [advance, nextDue, elapse, hp, fire]
   | running =>
     simp only [run, step, hp]
     simp [advance, nextDue, elapse, fire]
